@@ -10,7 +10,7 @@ LEVEL = "exploration"
 ORACLES = ("seq_isolation", "values", "no_internal_error")
 RULE = (
     "cases = call-only DAG programs with ~35% of the functions marked is_sequential (decorator or config_from_dict), "
-    "all three resources for sequential and non-sequential nodes, max_concurrency 1..5, both flavours; schedules: "
+    "a quarter of the cases executed through executor(target/exclude/root), all three resources for sequential and non-sequential nodes, max_concurrency 1..5, both flavours; schedules: "
     "controlled / exhaustive choice tree / free. oracle: between ENTER and EXIT of a sequential node no other node of "
     "the execution ENTERs or is inside its function. Under gates an overlap cannot be missed: a wrongly dispatched "
     "node is still inside its function. non-trivial = at some scheduler wait a sequential node was ready while "
@@ -30,7 +30,7 @@ def run_case(case: Dict[str, Any]) -> CaseResult:
 
 def strategy(tier: str) -> Any:
     return sc.sched_case(tier=tier, modes=("ctl", "ctl", "free", "ctl-ex"), min_sites=3, max_sites=9, wide=True,
-                         seq_rate=0.35, prio=(-2, 4), config_rate=0.15, max_mc=4)
+                         seq_rate=0.35, prio=(-2, 4), config_rate=0.15, max_mc=4, sel_rate=0.25)
 
 
 def run_shard(H: Harness) -> None:
